@@ -174,6 +174,8 @@ def main(replay=None):
         marks = [m[2:-1] for m in d["i_final"].split(",M<")[1:]] if ",M<" in d["i_final"] else []
         marks = [m.split(">,")[0] if ">," in m else m.rstrip(">") for m in d["i_final"].split("M<")[1:]]
         marks = [m for m in marks if not m.startswith("VALUE ")][-1:]      # the enclosing expression is printed last
+        if d["i_final"].startswith("2:") and d["m_final"].startswith("2:"):
+            marks = []      # the program ends in a runtime error (a generated operand faults): the enclosing expression is never printed
         if kind in ("array3", "array3n") and marks:
             first = marks[0]
             parts = split_top(first)
